@@ -125,6 +125,8 @@ It is assumed that all leaves are present. The tree will be corrupt when this is
 func (t *tree) Load(leaves map[uint32][]byte) error {
 	// nothing to load
 	if len(leaves) == 0 {
+		// the tree may hold data that was never persisted (rolled back), start from an empty tree
+		t.resetDefaults(t.leafSize)
 		return nil
 	}
 
